@@ -171,7 +171,7 @@ BUILT = {
             'Trusts pytz as the zone database and its transition table as the list of transitions.',
             'DESIGN.md 3/C17'),
     'C18': ('exhaustive enumeration of version-string pairs/triples + hypothesis strings against an independent reference key',
-            'All 2,402,500 ordered pairs over 1,550 version strings (padding x suffix) are compared with an independently written '
+            'All 3,459,600 ordered pairs over 1,860 version strings (padding x suffix) are compared with an independently written '
             'reference order for trichotomy, six-operator agreement, string operands on both sides, hash/set/dict behaviour, '
             'grammar-cache identity and nearest(); all triples over a 40/120-string subset for transitivity and congruence; plus '
             'seeded Hypothesis strings. Search, not proof: outside the enumerated universe only sampled.',
